@@ -139,6 +139,11 @@ def run(ctx: Ctx):
     # corpus: the recorded finding F-06 is reproduced on every run
     progs.append({"source": "from inline_snapshot import snapshot\n\nclass W:\n    def __repr__(self):\n        return '<W>'\n    def __eq__(self, o):\n        return True if isinstance(o, W) else NotImplemented\n\ndef test_a():\n    assert W() == snapshot()\n",
                   "flags": ("create",), "sites": [1, 2], "rich": True})
+    # tests that fail (and raise) before tests with pending changes, with flags that do not make the comparisons succeed
+    RAISING = ("from inline_snapshot import snapshot\n\n\ndef test_1():\n    assert 3 == snapshot(4)\n\n\ndef test_2():\n    assert 2 in snapshot([1, 2])\n\n\n"
+               "def test_3():\n    raise ValueError('boom')\n\n\ndef test_4():\n    for x in (1, 2):\n        assert x <= snapshot(5)\n")
+    for fl in ((), ("trim",), ("create",), ("trim", "update")):
+        progs.append({"source": RAISING, "files": {"test_something.py": RAISING}, "flags": fl, "sites": [1, 2, 3], "rich": False})
     outs = pmap(run_all, progs, procs=12, chunksize=1)
     terms = []
     for p, o in zip(progs, outs):
